@@ -693,6 +693,21 @@ func Rename(oldp, newp string) error {
 		c.Err = err.Error()
 		return &os.LinkError{Op: "rename", Old: oldp, New: newp, Err: err}
 	}
+	// os.Rename looks before it calls rename(2): a new name that is a directory
+	// is refused with EEXIST (an error about the old name comes first), so the
+	// kernel's own EISDIR / ENOTEMPTY are never seen through package os
+	if _, _, nn0, _, err0 := f.walk(newp, false, 0); err0 == nil && nn0 != nil && nn0.Kind == kDir {
+		_, _, on0, _, oerr := f.walk(oldp, false, 0)
+		if oerr != nil {
+			return fail(oerr)
+		}
+		if on0 == nil {
+			return fail(syscall.ENOENT)
+		}
+		if newp == oldp || on0 != nn0 {
+			return fail(syscall.EEXIST)
+		}
+	}
 	if fault != nil {
 		return fail(fault.Errno)
 	}
